@@ -5,7 +5,8 @@
    answer : (M S K)
               M = (Ok ((file (inc ...)) ...) (warning ...)) | (Err kind)
               S = None | (Some (sout ...))      locations root-first
-              K = (flag ...) kernel view agrees with the lexical S, per entry *)
+              K = (flag ...) kernel view agrees with the lexical S, per entry
+   case   : (P a b)   answer : (normpath(a) join(a,b) abspath(a) with cwd b, basename(a) suffix(a) isabs(a)) *)
 From Coq Require Import Bool Arith Ascii String List.
 From CBI Require Import Lib.Data Lib.Res Model.C13p Model.C13fs Model.C13 Spec.C13 Spec.C13db.
 Import ListNotations.
@@ -65,8 +66,19 @@ Definition k_flags (fs : fsys) (root : loc) (es : list entry) (outs : list s_out
          | _, _ => true
          end) (combine es outs).
 
+(* second case form, for the direct correspondence of the posixpath/pathlib model:
+   (P a b)  ->  (normpath a, join a b, abspath b a, basename a, suffix a, isabs a) *)
+Definition run_paths (a b : str) : data :=
+  DList [estr (normpath a); estr (join a b); estr (abspath b a); estr (basename a); estr (suffix a);
+         of_bool (isabs a)].
+
 Definition run_C13 (d : data) : data :=
   match d with
+  | DList [DStr "P"; a; b] =>
+      match dstr a, dstr b with
+      | Some a, Some b => run_paths a b
+      | _, _ => bad_case
+      end
   | DList [c; r; f; es] =>
       match dstr c, dstr r, as_list_of dec_obj f, as_list_of dec_entry es with
       | Some cwd, Some rootdir, Some fs, Some es =>
